@@ -80,7 +80,7 @@ pub enum StatusCode {
     RequestURITooLong,
     /// `415 Unsupported Media Type`: The request entity has a media type which the server or resource does not support.
     UnsupportedMediaType,
-    /// `416 Requested Range Not Satisfiable`: The range specified in the `Range` header cannot be fulfilled.
+    /// `416 Range Not Satisfiable`: The range specified in the `Range` header cannot be fulfilled.
     RequestedRangeNotSatisfiable,
     /// `417 Expectation Failed`: The expectation given in the `Expect` header could not be met by the server.
     ExpectationFailed,
@@ -228,10 +228,10 @@ impl From<StatusCode> for &str {
             StatusCode::Gone => "Gone",
             StatusCode::LengthRequired => "Length Required",
             StatusCode::PreconditionFailed => "Precondition Failed",
-            StatusCode::RequestEntityTooLarge => "Request Entity Too Large",
-            StatusCode::RequestURITooLong => "Request-URI Too Long",
+            StatusCode::RequestEntityTooLarge => "Payload Too Large",
+            StatusCode::RequestURITooLong => "URI Too Long",
             StatusCode::UnsupportedMediaType => "Unsupported Media Type",
-            StatusCode::RequestedRangeNotSatisfiable => "Requested Range Not Satisfiable",
+            StatusCode::RequestedRangeNotSatisfiable => "Range Not Satisfiable",
             StatusCode::ExpectationFailed => "Expectation Failed",
             StatusCode::InternalError => "Internal Server Error",
             StatusCode::NotImplemented => "Not Implemented",
